@@ -18,11 +18,11 @@ PROP = dict(
 )
 META = dict(
     text=("Lean theorems: for all eight comparison-operator x direction cases, every condition value and every stored value satisfying the condition, the index entry lies inside the interval createRangeBoundaries scans "
-          "(from C17's order embedding and a proved characterisation of bytesPrefixEnd as least upper bound of a prefix); equality lookups cover their prefix; re-filtering a duplicate-free complete candidate set is exact. "
+          "(from C17's order embedding and a proved characterisation of bytesPrefixEnd as least upper bound of a prefix); equality lookups cover their prefix; re-filtering a duplicate-free complete candidate set is exact; the index-maintenance model (build on a populated collection, then any create/update/delete history) holds exactly one entry per live document with its current values. "
           "Tied to /repo by byte-comparison of raw index entries after generated mutation histories and by twin-database query comparison."),
     design_ref="DESIGN.md section 8, C07",
-    note=("Trusted: Lean kernel; harness/query twin mode. PARTIAL: index maintenance and the planner's choice of index conditions are tied by correspondence (byte-equal entries, twin queries), not proved; unique indexes, arrays/JSON, relations not yet generated. "
+    note=("Trusted: Lean kernel; harness/query twin mode. PARTIAL: index maintenance is proved for the model and tied by byte-equal entries; the planner's choice of index conditions is tied by correspondence (twin queries), not proved; unique indexes, arrays/JSON, relations not yet generated. "
           "Differences only in the order of documents that tie on the first sort key are the known finding multi-key-order (C08)."),
-    technique="Lean 4 proof (range completeness from the C17 order embedding) + byte-level and twin-database correspondence",
+    technique="Lean 4 proof (range completeness from the C17 order embedding; index-maintenance invariant by induction over histories) + byte-level and twin-database correspondence",
 )
 ENGINES = []
